@@ -383,7 +383,24 @@ func (s *Solver) Check(assertions []*Term, wantModel bool) (Result, map[string]*
 	s.ufDef = map[string]bool{}
 	// small queries go through push/pop (z3's incremental core answers them in ~1 ms);
 	// large ones use a fresh context so that z3 applies its bit-blasting tactic pipeline.
-	incremental := s.kind != SolverCVC5 && len(s.ts.ConeCut(s.cut, as...)) < 1500
+	cone := s.ts.ConeCut(s.cut, as...)
+	incremental := s.kind != SolverCVC5 && len(cone) < 1500
+	if incremental {
+		// division/remainder/multiplication are much slower in z3's incremental core
+		for _, t := range cone {
+			switch t.op {
+			case OpUDiv, OpURem, OpSDiv, OpSRem:
+				incremental = false
+			case OpMul:
+				if t.args[0].op != OpConst && t.args[1].op != OpConst {
+					incremental = false
+				}
+			}
+			if !incremental {
+				break
+			}
+		}
+	}
 	if !s.optSet {
 		s.send("(set-option :produce-models true)\n")
 		s.optSet = true
